@@ -1,0 +1,63 @@
+//go:build verif
+// +build verif
+
+package types
+
+// Read-only projections of unexported state for the model-based checks in /verif.
+// Compiled only with -tags verif.
+
+type VerifBlockVotes struct {
+	PeerMaj23 bool
+	Voters    []int
+	Sum       int64
+}
+
+type VerifVoteSetState struct {
+	Votes   []string // canonical vote per validator: BlockID.Key() or "" when absent
+	HasVote []bool
+	Bits    []int
+	Sum     int64
+	Maj23   *BlockID
+	ByBlock map[string]VerifBlockVotes // key: BlockID.Key()
+	PeerMaj map[string]BlockID
+}
+
+func (voteSet *VoteSet) VerifProject() VerifVoteSetState {
+	voteSet.mtx.Lock()
+	defer voteSet.mtx.Unlock()
+	st := VerifVoteSetState{
+		Votes:   make([]string, len(voteSet.votes)),
+		HasVote: make([]bool, len(voteSet.votes)),
+		Sum:     voteSet.sum,
+		ByBlock: make(map[string]VerifBlockVotes),
+		PeerMaj: make(map[string]BlockID),
+	}
+	for i, v := range voteSet.votes {
+		if v != nil {
+			st.Votes[i] = v.BlockID.Key()
+			st.HasVote[i] = true
+		}
+	}
+	for i := 0; i < voteSet.votesBitArray.Size(); i++ {
+		if voteSet.votesBitArray.GetIndex(i) {
+			st.Bits = append(st.Bits, i)
+		}
+	}
+	if voteSet.maj23 != nil {
+		m := *voteSet.maj23
+		st.Maj23 = &m
+	}
+	for k, bv := range voteSet.votesByBlock {
+		p := VerifBlockVotes{PeerMaj23: bv.peerMaj23, Sum: bv.sum}
+		for i, v := range bv.votes {
+			if v != nil {
+				p.Voters = append(p.Voters, i)
+			}
+		}
+		st.ByBlock[k] = p
+	}
+	for k, b := range voteSet.peerMaj23s {
+		st.PeerMaj[k] = b
+	}
+	return st
+}
